@@ -216,7 +216,7 @@ def g_t4(langs=LANGS, cfgs=("s",), selffind=False):
             if selffind:
                 out.append(I("t4_selffind", cfg=c, defs=d, tus=["lang", "lang_" + l], cap=1800, rss=7.0))
                 if RULE_OF[l] in (1, 3):
-                    out.append(I("t4_abbrevfind", cfg=c, defs=d, tus=["lang", "lang_" + l], cap=2400, rss=8.0))
+                    out.append(I("t4_abbrevfind", cfg=c, defs=d + ["ABBREV=1"], tus=["lang", "lang_" + l], cap=2400, rss=12.0))
     return out
 
 
